@@ -661,3 +661,57 @@ static s32 M___cxa_atexit(void *f, void *a, void *d) { (void)f; (void)a; (void)d
 #ifdef USES_strcmp
 static s32 M_strcmp(void *a, void *b) { const u8 *x = (const u8 *)a, *y = (const u8 *)b; u64 i = 0; while (x[i] && x[i] == y[i]) i++; return (s32)x[i] - (s32)y[i]; }
 #endif
+
+/* ---------------------------------------------------------------- std::_Rb_tree support functions (binary-only in libstdc++.so)
+ * Node base layout: { int color; node* parent; node* left; node* right; }.  Insertion links the node WITHOUT rebalancing: the
+ * tree stays a valid binary search tree (lookup / ordered iteration are functionally identical), only its shape differs. */
+struct verif_rb { s32 color; struct verif_rb *parent, *left, *right; };
+#ifdef USES__ZSt29_Rb_tree_insert_and_rebalancebPSt18_Rb_tree_node_baseS0_RS_
+static void M__ZSt29_Rb_tree_insert_and_rebalancebPSt18_Rb_tree_node_baseS0_RS_(u1 insert_left, void *xv, void *pv, void *hv) {
+  struct verif_rb *x = (struct verif_rb *)xv, *p = (struct verif_rb *)pv, *h = (struct verif_rb *)hv;
+  x->parent = p; x->left = 0; x->right = 0; x->color = 0;
+  if (insert_left) {
+    p->left = x;                       /* also makes leftmost = x when p is the header */
+    if (p == h) { h->parent = x; h->right = x; }
+    else if (p == h->left) h->left = x;
+  } else {
+    p->right = x;
+    if (p == h->right) h->right = x;
+  }
+}
+#endif
+static inline struct verif_rb *verif_rb_increment(struct verif_rb *x) {
+  if (x->right) { x = x->right; while (x->left) x = x->left; return x; }
+  struct verif_rb *y = x->parent;
+  while (x == y->right) { x = y; y = y->parent; }
+  if (x->right != y) x = y;
+  return x;
+}
+static inline struct verif_rb *verif_rb_decrement(struct verif_rb *x) {
+  if (x->color == 0 && x->parent && x->parent->parent == x && 0) return x->right;
+  if (x->left) { struct verif_rb *y = x->left; while (y->right) y = y->right; return y; }
+  struct verif_rb *y = x->parent;
+  while (x == y->left) { x = y; y = y->parent; }
+  return y;
+}
+#ifdef USES__ZSt18_Rb_tree_incrementPSt18_Rb_tree_node_base
+static void *M__ZSt18_Rb_tree_incrementPSt18_Rb_tree_node_base(void *x) { return verif_rb_increment((struct verif_rb *)x); }
+#endif
+#ifdef USES__ZSt18_Rb_tree_incrementPKSt18_Rb_tree_node_base
+static void *M__ZSt18_Rb_tree_incrementPKSt18_Rb_tree_node_base(void *x) { return verif_rb_increment((struct verif_rb *)x); }
+#endif
+#ifdef USES__ZSt18_Rb_tree_decrementPSt18_Rb_tree_node_base
+static void *M__ZSt18_Rb_tree_decrementPSt18_Rb_tree_node_base(void *x) { return verif_rb_decrement((struct verif_rb *)x); }
+#endif
+#ifdef USES__ZSt18_Rb_tree_decrementPKSt18_Rb_tree_node_base
+static void *M__ZSt18_Rb_tree_decrementPKSt18_Rb_tree_node_base(void *x) { return verif_rb_decrement((struct verif_rb *)x); }
+#endif
+#ifdef USES__ZNKSt7__cxx1112basic_stringIcSt11char_traitsIcESaIcEE7compareEPKc
+static s32 M__ZNKSt7__cxx1112basic_stringIcSt11char_traitsIcESaIcEE7compareEPKc(void *S, void *cs) {
+  struct verif_string *s = VSTR(S); const u8 *c = (const u8 *)cs;
+  u64 n = 0; while (c[n]) n++;
+  u64 m = s->size < n ? s->size : n;
+  for (u64 i = 0; i < m; i++) { if (s->p[i] != c[i]) return s->p[i] < c[i] ? -1 : 1; }
+  return s->size < n ? -1 : (s->size > n ? 1 : 0);
+}
+#endif
